@@ -169,7 +169,7 @@ theorem runCore_invD (p : Program) (ff0 : Bool) (hwf : wf p = true) :
     exact ⟨_, _, _, h.stage hwf st hok.ok⟩
   · rintro s c rest hinv ⟨T, A, U, h⟩ hs
     exact ⟨_, _, _, h.pop hwf hinv c rest hs⟩
-  · rintro s _ ⟨T, A, U, h⟩ _ _ _
+  · rintro s _ ⟨T, A, U, h⟩ _ _
     exact ⟨_, _, _, h.forced⟩
 
 end TTV.Run
